@@ -204,7 +204,8 @@ def check(case, ctx):
         hi = sum(abs(b - a) for a, b in zip(zs, zs[1:]))
         mag = max(abs(z) for z in zs) + hi
         # (1e-11: lengths are computed to an absolute tolerance, LENGTH_ERROR = 1e-12, by design)
-        ctx.check(lo * (1 - 1e-6) - 64 * EPS * mag - 1e-11 <= l <= hi * (1 + 1e-6) + 64 * EPS * mag + 1e-11, 'segment_length_outside_trivial_bounds',
+        # (1e-2: where the speed vanishes, length() is only accurate to C06's 5e-3 -- this is a sanity bound against gross errors)
+        ctx.check(lo * (1 - 1e-2) - 64 * EPS * mag - 1e-11 <= l <= hi * (1 + 1e-2) + 64 * EPS * mag + 1e-11, 'segment_length_outside_trivial_bounds',
                   'segment %r reports length %r, but its 16-chord polyline is %r and its control polygon %r long' % (sp, l, lo, hi))
     if any(sp[0] == 'C' and sp[1] == sp[-1] and gen.pts_distinct(sp[1:]) for sp in specs):
         ctx.count('loop_segment')
